@@ -528,6 +528,11 @@ func (x *bitCtx) checkBlockIter(fn *ssa.Function, reverse bool) {
 					}
 				}
 			}
+			// members are produced by the 64-bit iterators only: a block iterator that writes into the caller's slice
+			// itself (a fast path for full or empty words) is a second implementation of the order and the limit
+			if e.Kind == EvStore && e.Addr.Kind == KIndexAddr && e.Addr.Args[0].root().Key() == s {
+				fail(t, i, "the block iterator stores members into the caller's slice itself instead of leaving every word to the 64-bit iterator of the same direction and width")
+			}
 			if e.Kind == EvCall && e.Method != nil && iterNameRe.MatchString(e.Method.Name()) {
 				calls++
 				lastCall = e
